@@ -1049,11 +1049,20 @@ def graphql_schema(
         id_type: graphql.GraphQLScalarType = graphql.GraphQLID
     else:
         id_deserializer, id_serializer = id_encoding
+        parse_id_literal = graphql.GraphQLID.parse_literal
+        if id_deserializer is not None:
+            id_decoder = id_deserializer
+
+            # an ID written as a literal in the document is decoded like one passed
+            # through a variable
+            def parse_id_literal(node, variables=None):  # type: ignore
+                return id_decoder(graphql.GraphQLID.parse_literal(node, variables))
+
         id_type = graphql.GraphQLScalarType(
             name="ID",
             serialize=id_serializer or graphql.GraphQLID.serialize,
             parse_value=id_deserializer or graphql.GraphQLID.parse_value,
-            parse_literal=graphql.GraphQLID.parse_literal,
+            parse_literal=parse_id_literal,
             description=graphql.GraphQLID.description,
         )
 
